@@ -217,6 +217,7 @@ CHECKS["C17"] = dict(
     assumptions=E4_ASSUME,
     units=[dict(pkg="config", test="TestVerifC17", shards_quick=8, shards_thorough=16, budget_quick=200, budget_thorough=1500),
            dict(pkg="config", test="TestVerifC17Pure", shards_quick=1, shards_thorough=1, budget_quick=60, budget_thorough=300),
+           dict(pkg="config", test="TestVerifC17Globals", shards_quick=1, shards_thorough=1, budget_quick=100, budget_thorough=300),
            dict(pkg="app", test="TestVerifC17App", shards_quick=8, shards_thorough=16, budget_quick=200, budget_thorough=1500)],
 )
 
